@@ -1078,10 +1078,11 @@ class DropnaFrame(Blockwise):
     operation = M.dropna
 
     def _simplify_up(self, parent, dependents):
-        if self.subset is not None:
+        if self.subset is not None and isinstance(parent, Projection):
             columns = determine_column_projection(
                 self, parent, dependents, additional_columns=self.subset
             )
+            columns = _convert_to_list(columns)
             columns = [col for col in self.frame.columns if col in columns]
 
             if columns == self.frame.columns:
